@@ -55,12 +55,15 @@ BadChars(e) ==
                /\ (e["in"][k] <= MaxChar => e.outs[k][1] = e["in"][k])>>})
 
 (* ---- C08 literals ---- *)
+\* The property fixes what happens to SMT-LIB characters only: a character of the text above
+\* MaxChar (a Rust char can be) may come out as anything well formed (C17 requires that much).
+SameUpToNonSmt(out, dec) == Len(out) = Len(dec) /\ \A k \in 1..Len(dec) : dec[k] <= MaxChar => out[k] = dec[k]
 BadParse(e) ==
   LET n == Len(e.x) IN
-  Failed({<<"C08:parse_smt_literal", ~e.panic /\ e.prefixes[n + 1] = Decode(e.x)>>,
+  Failed({<<"C08:parse_smt_literal", ~e.panic /\ SameUpToNonSmt(e.prefixes[n + 1], Decode(e.x))>>,
           \* per-step binding: after every prefix the crate's parser is in the state of LiteralParser
-          <<"C08:parser_steps", \A k \in 0..n : e.prefixes[k + 1] = PResult(PRun(PInit, SubSeq(e.x, 1, k)))>>,
-          <<"C17:parse_smt_literal_good", (\A k \in 1..n : e.x[k] \in 0..MaxChar) => Good(e.prefixes[n + 1])>>})
+          <<"C08:parser_steps", \A k \in 0..n : SameUpToNonSmt(e.prefixes[k + 1], PResult(PRun(PInit, SubSeq(e.x, 1, k))))>>,
+          <<"C17:parse_smt_literal_good", Good(e.prefixes[n + 1])>>})
 PrintOk(s, body) == Printable(body) /\ QuotesDoubled(body) /\ RoundTrips(s, body)
 BadPrint(e) ==
   Failed({<<"C08:display_printable_ascii", e.quoted /\ Printable(e.body)>>,
